@@ -81,6 +81,11 @@ def apply_stubs(mod, f):
             owner = getattr(owner, p)
         undo.append((owner, parts[-1], getattr(owner, parts[-1])))
         setattr(owner, parts[-1], getattr(mod, fname))
+    for q, gname in (f._lemma_opts.get("overrides") or {}).items():
+        modname, attr = q.split(":")
+        m = importlib.import_module(modname)
+        undo.append((m, attr, getattr(m, attr)))
+        setattr(m, attr, getattr(mod, gname))
     return undo
 
 
